@@ -739,18 +739,18 @@ static int upipe_graph_set_history_real(struct upipe *upipe, uint64_t size)
 {
     struct upipe_graph *graph = upipe_graph_from_upipe(upipe);
 
+    if (unlikely(!size))
+        return UBASE_ERR_INVALID;
+
     struct uchain *uchain;
     ulist_foreach(&graph->inputs, uchain) {
         struct upipe_graph_input *input = upipe_graph_input_from_uchain(uchain);
-        int64_t *values = NULL;
-        if (size) {
-            uint64_t *values = calloc(size, sizeof (uint64_t));
-            if (unlikely(!values)) {
-                upipe_throw_fatal(upipe, UBASE_ERR_ALLOC);
-                free(input->values);
-                input->values = NULL;
-                continue;
-            }
+        int64_t *values = calloc(size, sizeof (int64_t));
+        if (unlikely(!values)) {
+            upipe_throw_fatal(upipe, UBASE_ERR_ALLOC);
+            free(input->values);
+            input->values = NULL;
+            continue;
         }
 
         uint64_t from_index = graph->index;
